@@ -57,9 +57,12 @@ def quick_sample(fn, c, db):
     if fn['name'] in ('bit_shift_left', 'bit_shift_right', 'rotl', 'rotr'):
         hi = t.bits
         keep = {0, 1, hi // 2, hi - 1, hi, hi + 1, 2 * hi - 1, 2 * hi, 0xffffffff, 2 + (SEED * 7 + hi) % max(1, hi - 3)}
+    elif fn['name'] in ('extract', 'insert'):
+        hi = t.W
+        keep = {0, hi - 1, (SEED * 5 + 3) % hi} if hi > 4 else set(range(hi))
     else:
         hi = t.W
-        keep = {0, 1, hi // 2, hi - 1, hi, (SEED * 5 + 3) % (hi + 1)}
+        keep = {0, hi - 1, hi, (SEED * 5 + 3) % (hi + 1)} if hi > 4 else set(range(hi + 1))
     return v in keep
 
 
